@@ -22,7 +22,9 @@ var c03Prec = []int{1, 2, 3, 3, 4, 4, 4, 4, 5, 5, 6, 6, 6, 8}
 const c03Union = 13
 
 var c03Operands = [][]string{
-	{"2"}, {"'s'"}, {"a"}, {"not", "(", "b", ")"}, {"(", "3", ")"}, {"b"}, {".."}, {"a", "/", ".."},
+	// the first four are the quick tier's choice: an exponent-form number, a literal, a
+	// parent step, a function call
+	{"1e3"}, {"'s'"}, {".."}, {"not", "(", "b", ")"}, {"a"}, {"(", "3", ")"}, {"b"}, {"a", "/", ".."}, {"2"}, {".5"},
 }
 
 type c03Expr struct {
@@ -93,8 +95,23 @@ func isPunctByte(c byte) bool {
 }
 
 // canDropBlank: the two tokens cannot glue into a different token sequence.
+func isNumberTok(t string) bool {
+	for i := 0; i < len(t); i++ {
+		c := t[i]
+		if !(c >= '0' && c <= '9') && c != '.' && c != 'e' && c != 'E' {
+			return false
+		}
+	}
+	return t[0] >= '0' && t[0] <= '9' || t[0] == '.'
+}
+
 func canDropBlank(l, r string) bool {
 	lc, rc := l[len(l)-1], r[0]
+	// after a number an operator character starts a new token whatever the spelling of
+	// the number (the implementation also lexes exponent forms, see C04)
+	if isNumberTok(l) && (rc == '+' || rc == '-' || rc == '*') {
+		return true
+	}
 	if lc == '<' || lc == '>' || lc == '!' {
 		return false
 	}
